@@ -33,8 +33,32 @@ import (
 func TestMain(m *testing.M)   { fdkit.InstallLogger(); vkit.Main(m) }
 func TestReplay(t *testing.T) { vkit.Replay(t) }
 
-// liveness guard only (HARNESS.md: >= 20 s); never a pass/fail criterion of the property itself.
-const deadlockGuard = 30 * time.Second
+// Liveness guard only (HARNESS.md: >= 20 s); never a pass/fail criterion of the
+// property itself. It is counted in one-second slices of the waiter's own
+// running time, so a machine-wide stall (paused VM, overloaded host) burns one
+// slice, not the whole guard.
+const deadlockSlices = 40
+const deadlockGuard = deadlockSlices * time.Second
+
+// waitDone waits for done; false = no progress during deadlockSlices separate one-second waits.
+func waitDone(done <-chan struct{}) bool {
+	t := time.NewTimer(time.Second)
+	defer t.Stop()
+	for left := deadlockSlices; left > 0; left-- {
+		select {
+		case <-done:
+			return true
+		case <-t.C:
+			t.Reset(time.Second)
+		}
+	}
+	select {
+	case <-done:
+		return true
+	default:
+		return false
+	}
+}
 
 var errAbort = errors.New("c11: scripted transport failure (client went away)")
 
@@ -254,8 +278,9 @@ type reqRun struct {
 	w      *respWriter
 	// reference
 	valid    bool   // the wire bytes are a complete, well-formed body (decided without file.d)
-	lenient  bool   // a flipped byte that compress/gzip tolerates (e.g. reserved header flag bits, which RFC 1952 decoders reject): 200 or not are both accepted
+	lenient  bool   // well-formedness is debatable (a flipped byte that compress/gzip tolerates, e.g. reserved header flag bits that RFC 1952 decoders must reject; a zero-byte gzip body): 200 or not are both accepted
 	expected []byte // what the lines are taken from
+	noAnswer bool   // wire mode only: no response could be read
 	flipped  bool   // corrupted in a way that may decode to arbitrary bytes before the error shows
 }
 
@@ -277,15 +302,9 @@ func stdGunzip(wire []byte) ([]byte, error) {
 	return io.ReadAll(zr)
 }
 
-func run(c Case) *vkit.Outcome {
-	o := vkit.NewOutcome()
-	n := len(c.Reqs)
-	if n == 0 {
-		return o
-	}
-	rec := &recorder{nIn: make([]int64, n)}
-	rec.cur.Store(-1)
-	runs := make([]*reqRun, n)
+// prepare renders bodies and wire bytes and decides, without file.d, what each request must yield.
+func prepare(c *Case, rec *recorder) []*reqRun {
+	runs := make([]*reqRun, len(c.Reqs))
 	for i := range c.Reqs {
 		q := &c.Reqs[i]
 		if len(q.Cycle) == 0 {
@@ -300,6 +319,10 @@ func run(c Case) *vkit.Outcome {
 		if q.gzipHeader() {
 			ref, err := stdGunzip(rr.wire)
 			switch {
+			case len(rr.wire) == 0:
+				// zero bytes: "a series of members" (RFC 1952) may or may not include the empty
+				// series; compress/gzip reports plain io.EOF. Both 200 (no lines) and an error are accepted.
+				rr.expected, rr.lenient = nil, true
 			case err != nil:
 				rr.valid = false
 				rr.flipped = q.Corrupt == "flip"
@@ -311,13 +334,27 @@ func run(c Case) *vkit.Outcome {
 				// a corruption that still decodes (to something else): the decoded bytes are the body
 				rr.expected = ref
 			}
-			rr.lenient = err == nil && q.Corrupt == "flip"
+			if err == nil && q.Corrupt == "flip" {
+				rr.lenient = true
+			}
 		}
 		if q.ErrAt >= 0 {
 			rr.valid = false
 		}
 		runs[i] = rr
 	}
+	return runs
+}
+
+func run(c Case) *vkit.Outcome {
+	o := vkit.NewOutcome()
+	n := len(c.Reqs)
+	if n == 0 {
+		return o
+	}
+	rec := &recorder{nIn: make([]int64, n)}
+	rec.cur.Store(-1)
+	runs := prepare(&c, rec)
 
 	plugin, stop := startPlugin(&c, rec)
 	deadlocked := ""
@@ -344,23 +381,31 @@ func run(c Case) *vkit.Outcome {
 	judge(&c, o, rec, runs)
 	classify(&c, o, runs)
 	if o.Failed() {
-		var hist []string
-		for _, cl := range rec.calls {
-			hist = append(hist, fmt.Sprintf("t=%d..%d In(source=%d, cur=%d, %s)", cl.start, cl.end, cl.sid, cl.cur, clip(cl.data)))
-		}
-		for i, rr := range runs {
-			st, ts := rr.w.effective()
-			hist = append(hist, fmt.Sprintf("request %d: status %d at t=%d, handler returned at t=%d, reads ended at %v", i, st, ts, rr.w.tReturn, clipInts(rr.reader.bounds)))
-		}
-		o.History = hist
-		var sb strings.Builder
-		fmt.Fprintf(&sb, "mode=%s es=%v avgEventSize=%d sched=%v", c.Mode, c.ES, c.AvgEventSize, c.Sched)
-		for i, rr := range runs {
-			sb.WriteString("\n" + describe(i, rr.q, rr.body, rr.wire))
-		}
-		o.AppendContext(sb.String())
+		o.History = history(rec, runs)
+		o.AppendContext(context(&c, runs))
 	}
 	return o
+}
+
+func history(rec *recorder, runs []*reqRun) []string {
+	var hist []string
+	for _, cl := range rec.calls {
+		hist = append(hist, fmt.Sprintf("t=%d..%d In(source=%d, cur=%d, %s)", cl.start, cl.end, cl.sid, cl.cur, clip(cl.data)))
+	}
+	for i, rr := range runs {
+		st, ts := rr.w.effective()
+		hist = append(hist, fmt.Sprintf("request %d: status %d at t=%d, handler returned at t=%d, reads ended at %v", i, st, ts, rr.w.tReturn, clipInts(rr.reader.bounds)))
+	}
+	return hist
+}
+
+func context(c *Case, runs []*reqRun) string {
+	var sb strings.Builder
+	fmt.Fprintf(&sb, "mode=%s es=%v avgEventSize=%d sched=%v", c.Mode, c.ES, c.AvgEventSize, c.Sched)
+	for i, rr := range runs {
+		sb.WriteString("\n" + describe(i, rr.q, rr.body, rr.wire))
+	}
+	return sb.String()
 }
 
 // runLockstep serialises the requests: exactly one request goroutine runs at a
@@ -392,15 +437,23 @@ func runLockstep(c *Case, plugin *httpin.Plugin, rec *recorder, runs []*reqRun) 
 			ev <- -(i + 1)
 		}()
 	}
-	guard := time.NewTimer(deadlockGuard)
+	guard := time.NewTimer(time.Second)
 	defer guard.Stop()
 	wait := func() (int, bool) {
 		select {
 		case e := <-ev:
 			return e, true
-		case <-guard.C:
-			return 0, false
+		default:
 		}
+		for left := deadlockSlices; left > 0; left-- {
+			guard.Reset(time.Second)
+			select {
+			case e := <-ev:
+				return e, true
+			case <-guard.C:
+			}
+		}
+		return 0, false
 	}
 	for parked := 0; parked < n; parked++ {
 		if _, ok := wait(); !ok {
@@ -476,12 +529,10 @@ func runFree(plugin *httpin.Plugin, rec *recorder, runs []*reqRun) string {
 		}()
 	}
 	go func() { wg.Wait(); close(done) }()
-	select {
-	case <-done:
+	if waitDone(done) {
 		return ""
-	case <-time.After(deadlockGuard):
-		return fmt.Sprintf("%d concurrent requests did not finish within %v", n, deadlockGuard)
 	}
+	return fmt.Sprintf("%d concurrent requests did not finish within %v", n, deadlockGuard)
 }
 
 // ---------------------------------------------------------------- oracle
@@ -521,6 +572,16 @@ func clip(b []byte) string {
 	return fmt.Sprintf("%q…%q (%d bytes)", b[:40], b[len(b)-24:], len(b))
 }
 
+func nonBlankPieces(body []byte) [][]byte {
+	var want [][]byte
+	for _, p := range bytes.Split(body, []byte{'\n'}) {
+		if !blank(p) {
+			want = append(want, p)
+		}
+	}
+	return want
+}
+
 func clipInts(v []int) string {
 	if len(v) <= 40 {
 		return fmt.Sprint(v)
@@ -551,7 +612,7 @@ func judge(c *Case, o *vkit.Outcome, rec *recorder, runs []*reqRun) {
 			continue
 		}
 		owner := cl.cur
-		if c.Mode == "free" {
+		if c.Mode != "seq" && c.Mode != "lockstep" {
 			owner = tagOwner(cl.data)
 			if owner < 0 {
 				// an untagged piece (a body cut inside a tag): attribute it if exactly one body has it
@@ -581,6 +642,11 @@ func judge(c *Case, o *vkit.Outcome, rec *recorder, runs []*reqRun) {
 	for i, rr := range runs {
 		calls := per[i]
 		status, tStatus := rr.w.effective()
+		if rr.noAnswer {
+			// wire mode: the client could not read an answer (I/O error); only the lines are judged
+			compareLines(o, i, runs, calls, nonBlankPieces(rr.expected), false, true)
+			continue
+		}
 
 		// expected non-blank lines: the newline-separated pieces, last one included iff non-empty
 		var want [][]byte
